@@ -150,6 +150,36 @@ func newLayMachine(c *Ctx) *layMachine {
 				return true
 			}
 		}
+		// a new helper that returns an instruction sequence (compileMake(tok)) is the body of the
+		// case (or a part of it) moved out: executed in place
+		if c.isNewHelper(o) && sig.Results().Len() == 1 && isInsSlice(sig.Results().At(0).Type()) {
+			return true
+		}
+		// a new setter helper — a body of plain assignments, no calls, no branches
+		// (c.setFunc(name, scope): c.FuncName, c.typeScope = name, scope) — is executed in place
+		if c.isNewHelper(o) {
+			if fd := c.DeclOf(o); fd != nil && fd.Body != nil && len(fd.Body.List) > 0 {
+				plain := true
+				for _, st := range fd.Body.List {
+					as, ok := st.(*ast.AssignStmt)
+					if !ok {
+						plain = false
+						break
+					}
+					for _, rh := range as.Rhs {
+						ast.Inspect(rh, func(n ast.Node) bool {
+							if _, isCall := n.(*ast.CallExpr); isCall {
+								plain = false
+							}
+							return plain
+						})
+					}
+				}
+				if plain {
+					return true
+				}
+			}
+		}
 		return false
 	}
 	in.NoReturn = func(o types.Object) bool { return o.Name() == "panicf" }
